@@ -280,6 +280,8 @@ def run_check(prop, tier, seed, replay=None):
             traceback.print_exc()
             broken.append({"kind": "correspondence-error", "detail": f"{type(e).__name__}: {e}"})
     for d in corr.get("disagreements", []):
+        if getattr(mod, "DISAGREEMENT_IS_VIOLATION", False):
+            violations.append({"key": "correspondence:" + d.get("what", ""), "what": d.get("what", ""), "case": d})
         broken.append({"kind": "correspondence", "name": d.get("what", "model/implementation disagreement"), "case": d})
     ctx.log(f"correspondence: {corr.get('evaluations', 0)} cases, {len(corr.get('disagreements', []))} disagreements")
     # 5. search (always a light one; deeper when something is broken)
